@@ -160,6 +160,20 @@ def looptop_rule(ctx, rep, flag=None, helper=None):
     loopwrap = prog.fn("helpers:executor_loop")
     for owner, target, node, initfi in ctx.types.thread_targets:
         rep.ob("R-LOOPWRAP", "%s: wrapped by executor_loop" % target.qualname, "executor_loop" in target.decorators, "thread target is not decorated with executor_loop", where_of(target))
+        # the constructor starts the thread it builds (directly or through a factory helper)
+        o_, cinit = owner.lookup("__init__")
+        if cinit is not None:
+            cps, cit = ctx.paths(cinit, owner, depth=2, inline=lambda callee, ev, path: callee.name != "__init__" and (callee is initfi or (callee.owner is not None and callee.owner in owner.mro())))
+            for cp in cps:
+                if cp.status == "raise":
+                    continue
+                ths = [e for e in cp.calls() if e.d["func"] == ("ext", "threading.Thread")]
+                if not ths:
+                    continue
+                tobj = ths[0].d.get("result")
+                holders = [tobj] + [k for k, v in cp.heap.items() if v == tobj] + [("attr", ("param", "self"), k[2]) for k, v in cp.heap.items() if v == tobj and k[0] == "attr"]
+                started = [e for e in cp.calls() if q.call_name(e) == "start" and (q.recv(e) in holders or cp.heap.get(q.recv(e)) == tobj)]
+                rep.ob("R-LOOPWRAP", "%s: the worker thread is started by the constructor" % owner.name, len(started) == 1, "the thread object is built but start() is called %d times: with no worker nothing is ever handed over / polled / timed out" % len(started), where_of(cinit), trace_of(cp))
         ps, it = ctx.paths(target, target.owner if target.owner else None)
         gates = ctx.gate_field(owner)
         n_iter = 0
